@@ -607,6 +607,13 @@ func ruleC05Dead(p *Program, r *Run, handledBin, producedBin map[string]string) 
 				if a.List == nil {
 					inDefault = true
 				}
+				// `case nil:` of a type switch over a node: no node at all, which a parsed tree never holds where an
+				// expression is required (C07/filled) - a fallback like the default clause
+				if len(a.List) == 1 && isNilIdent(p.Info, a.List[0]) {
+					if _, isTS := p.Parent(p.Parent(a)).(*ast.TypeSwitchStmt); isTS {
+						inDefault = true
+					}
+				}
 			case *ast.IfStmt:
 				if a.Else == child {
 					inDefault = true
